@@ -158,12 +158,15 @@ pub fn truth(log: &RunLog) -> Result<Truth, TruthError> {
                                         && x.wire.as_ref().and_then(|w| wire_sequence(cfg, w)) == q
                                         && identity_matches(cfg, x, s)
                                 });
-                            if aliased {
-                                let gap = publishes.saturating_sub(s.round);
+                            let gap = publishes.saturating_sub(s.round);
+                            // One round late: the tracer promises to reject it.  Only the
+                            // recorded C07 finding (TCP rounds burning > 254 sequences) is
+                            // excluded; for ICMP / UDP the outcome oracle judges it.
+                            if aliased && (gap >= 2 || cfg.protocol == Proto::Tcp) {
                                 return Err(TruthError::Excluded(if gap >= 2 {
                                     "response two or more rounds late names a re-issued sequence".into()
                                 } else {
-                                    "previous-round response names a re-issued sequence (C07 domain)".into()
+                                    "previous-round response names a re-issued sequence (TCP: recorded C07 finding)".into()
                                 }));
                             }
                         }
